@@ -211,6 +211,11 @@ def build(ctx):
         return with_models(v, o)
 
     def ft_alpha_replay(w):
+        from ..rt import containers as _ct   # the same numbers held in pandas containers with non-default row labels
+        _r = _ct.run(["from_table"])
+        if _r["violations"]:
+            _v = _r["violations"][0]
+            return {"reproduced": True, "input": _v.get("input"), "observed": _v.get("observed"), "required": _v.get("required"), "clause": _v.get("clause")}
         import numpy as np
         import pandas as pd
         from scipy.interpolate import interp1d
